@@ -10,7 +10,7 @@ import (
 // C17: the two conversions of package types, with the tables loaded the way the package's own
 // initialisation does it for a process started in the repository root (types.SetIsTest("main"):
 // ./types/uao250-*.big5.txt, then initBig5). With VERIF_C17_FRESH set the tables are left as a new process
-// has them (empty) and ops 10/11 go through the start-up path themselves (c17init.go).
+// has them (empty) and ops 10/11/12 go through the start-up path themselves (c17init.go, c17start.go).
 func init() {
 	register("C17", &propDriver{
 		setup: func() {
@@ -37,6 +37,8 @@ func init() {
 				return c17InitScenario(args)
 			case 11: // init history, then ptttype.InitConfig steps: BBSNAME / BBSNAME_BIG5 (fresh process only)
 				return c17BBSNameScenario(args)
+			case 12: // whole start-ups (time zone, linked table paths), then conversions (fresh process only; c17start.go)
+				return c17StartScenario(args)
 			}
 			return []string{"9"}
 		},
